@@ -46,6 +46,20 @@ theorem eager_nsmaps_counterexample : eagerNsmaps wNs ≠ lazyNsmaps wNs ∧
     eagerNsmaps wNs = some [(0, []), (1, [("q", "u2")]), (2, [("q", "u2"), ("p", "u3")]), (3, [("q", "u2")])] := by
   decide
 
+/-- What does hold for the pinned eager loader: on documents where no element with namespace declarations
+    closes directly after a last child (chain) that also carried declarations (`eagerSafe`, decidable), its
+    maps are the in-scope maps, hence equal to the lazy ones. -/
+theorem eager_nsmaps_partial (t : Tree) (h : eagerSafe t = true) : eagerNsmaps t = some (inScope [] t) := by
+  obtain ⟨⟨h1, _, _, h4⟩, _⟩ := ns_inv_eager t NsSt.init [] [] h rfl rfl rfl
+  simp only [NsSt.init] at h1 h4
+  simp [eagerNsmaps, NsSt.init, h1, h4]
+
+def wNsSafe : Tree :=
+  .node 0 "r" [("p", "u1")] [.node 1 "a" [("q", "u2")] [.node 2 "b" [("p", "u3")] [], .node 3 "c" [] []],
+                             .node 4 "d" [] []]
+
+example : eagerSafe wNsSafe = true ∧ eagerSafe wNs = false := by decide
+
 /-! ### iteration -/
 
 /-- Lazy `iter` (no tag filter) yields the elements in exactly the order `lazyOrder`: document order above
